@@ -57,11 +57,40 @@ type PoolOpts struct {
 
 // RunPool executes tasks on worker processes and calls handle (serialised) for every outcome.
 func RunPool(tasks []any, o PoolOpts, handle func(TaskOutcome)) {
+	p := NewPool(o)
+	defer p.Close()
+	p.Run(tasks, handle)
+}
+
+// Pool keeps worker processes alive across several Run calls.
+type Pool struct {
+	o       PoolOpts
+	workers []*worker
+}
+
+func NewPool(o PoolOpts) *Pool {
 	if o.Workers <= 0 {
 		o.Workers = 16
 	}
-	if o.Workers > len(tasks) {
-		o.Workers = len(tasks)
+	return &Pool{o: o, workers: make([]*worker, o.Workers)}
+}
+
+// Close stops all workers.
+func (p *Pool) Close() {
+	for i, w := range p.workers {
+		if w != nil {
+			w.stop()
+			p.workers[i] = nil
+		}
+	}
+}
+
+// Run executes tasks on the pool's workers (started on demand) and calls handle (serialised) per outcome.
+func (p *Pool) Run(tasks []any, handle func(TaskOutcome)) {
+	o := p.o
+	n := o.Workers
+	if n > len(tasks) {
+		n = len(tasks)
 	}
 	var mu sync.Mutex
 	next := 0
@@ -77,43 +106,37 @@ func RunPool(tasks []any, o PoolOpts, handle func(TaskOutcome)) {
 	}
 	var hmu sync.Mutex
 	var wg sync.WaitGroup
-	for w := 0; w < o.Workers; w++ {
+	for w := 0; w < n; w++ {
 		wg.Add(1)
-		go func() {
+		go func(slot int) {
 			defer wg.Done()
-			var wk *worker
-			defer func() {
-				if wk != nil {
-					wk.stop()
-				}
-			}()
 			for {
 				i, ok := take()
 				if !ok {
 					return
 				}
-				if wk == nil {
-					var err error
-					wk, err = startWorker(o)
+				if p.workers[slot] == nil {
+					wk, err := startWorker(o)
 					if err != nil {
 						hmu.Lock()
 						handle(TaskOutcome{Index: i, Crashed: true, Stderr: "cannot start worker: " + err.Error()})
 						hmu.Unlock()
 						continue
 					}
+					p.workers[slot] = wk
 				}
 				b, _ := json.Marshal(tasks[i])
-				out := wk.do(b, o.TaskTimeout)
+				out := p.workers[slot].do(b, o.TaskTimeout)
 				out.Index = i
 				if out.Crashed || out.TimedOut {
-					wk.stop()
-					wk = nil
+					p.workers[slot].stop()
+					p.workers[slot] = nil
 				}
 				hmu.Lock()
 				handle(out)
 				hmu.Unlock()
 			}
-		}()
+		}(w)
 	}
 	wg.Wait()
 }
